@@ -43,7 +43,9 @@ from zoo import meshes as Z
 
 PROPERTY = "C08"
 
-LETTERS = ["T", "R90", "Rg", "S", "Q"]  # Q = read-only queries on a displaced configuration (documented optional argument): identity motion
+# Q = read-only queries on a displaced configuration (documented optional argument), P = point location + evaluation of a linear nodal
+# field at the element centroids: identity motions
+LETTERS = ["T", "R90", "Rg", "S", "Q", "P"]
 POLYS_QUICK = ["quad", "pent", "L"]
 BATCHES = [1, 2, 3, 5, "elem", "mesh", "elem_hint"]
 TOL_EVAL = 1e-9
@@ -122,6 +124,63 @@ def _locate_mixed_cases(tier):
     return out
 
 
+GRID_SHAPES = [(9, 6), (6, 9), (7, 7)]  # (nX, nY) pixels: wider than high, higher than wide, square
+
+
+def _locate_grid_cases(tier):
+    """the batch is a full regular grid of INTEGER-typed coordinates (the pixels of an image: x fastest, z = 0), the mesh lies strictly
+    inside the image; every pixel strictly inside the mesh is located and carries the interpolated polynomial; the same batch typed as
+    floats gives the same values."""
+    out = []
+    ets = ["TRI3", "QUAD4", "TRI6", "QUAD8"] if tier == "quick" else list(Z.TYPES_2D)
+    for et in ets:
+        for nX, nY in GRID_SHAPES:
+            for dist in ((False, True) if Z.topo(et) == "QUAD" else (False,)):
+                out.append({"kind": "locate_grid", "elemType": et, "nX": nX, "nY": nY, "distort": dist})
+    return out
+
+
+def _run_locate_grid(case):
+    et, nX, nY = case["elemType"], int(case["nX"]), int(case["nY"])
+    key = dict(kind="locate_grid", elemType=et, grid=f"{nX}x{nY}", distort=bool(case["distort"]))
+    zm = Z.template_2d(et, k=(3, 2), distort=bool(case["distort"]))
+    # unit square -> [0.4, nX - 1.4] x [0.4, nY - 1.4]: strictly inside the image, no pixel on the boundary of the mesh
+    A = np.diag([nX - 1.8, nY - 1.8, 1.0])
+    zm = zm.mapped(A, np.array([0.4, 0.4, 0.0]))
+    mesh = zm.build()
+    coord = zm.coords
+    xp, yp = np.meshgrid(np.arange(nX), np.arange(nY))
+    pix = np.zeros((nX * nY, 3), dtype=int)
+    pix[:, 0], pix[:, 1] = xp.ravel(), yp.ravel()
+    P = pix.astype(float)
+    inside = (P[:, 0] > 0.4 + 1e-9) & (P[:, 0] < nX - 1.4 - 1e-9) & (P[:, 1] > 0.4 + 1e-9) & (P[:, 1] < nY - 1.4 - 1e-9)
+    deg = 1 if (case["distort"] or et in ("TRI3", "QUAD4")) else 2
+    f = (lambda X: 1.0 + 0.2 * X[:, 0] - 0.3 * X[:, 1]) if deg == 1 else (lambda X: 1.0 + 0.2 * X[:, 0] - 0.3 * X[:, 1] + 0.05 * X[:, 0] * X[:, 1] - 0.02 * X[:, 1] ** 2)
+    dofs = f(coord)
+    want = f(P)
+    sc = float(np.abs(want).max())
+    tol = TOL_ITER if case["distort"] else TOL_EVAL
+    v, obs = [], []
+    for name, batch in (("int_grid", pix), ("float_grid", P)):
+        try:
+            got = np.asarray(mesh.Evaluate_dofsValues_at_coordinates(batch.copy(), dofs), dtype=float).ravel()
+        except Exception as err:
+            v.append(viol("evaluate_raises", f"{et} {nX}x{nY} {name}: {type(err).__name__}: {str(err)[:160]}", batch=name, **key))
+            continue
+        if got.shape != want.shape:
+            v.append(viol("evaluate_shape", f"{et} {nX}x{nY} {name}: shape {got.shape}", batch=name, **key))
+            continue
+        obs.append(np.round(got, 6))
+        err = np.abs(got - want)[inside]
+        if err.max() > tol * sc:
+            lost = int(np.sum(got[inside] == 0.0))
+            i = int(np.flatnonzero(inside)[np.argmax(err)])
+            v.append(viol("not_located" if lost else "wrong_value", f"{et} mesh inside a {nX}x{nY} image, batch {name}: {lost} of {int(inside.sum())} pixels inside the mesh "
+                                                                     f"are not located; worst pixel {pix[i, :2].tolist()}: got {got[i]!r}, exact {want[i]!r}", batch=name, **key))
+    return {"violations": v, "fingerprint": fp("grid", et, nX, nY, case["distort"], *obs), "nontrivial": bool(inside.sum() > 4), "transitions": 2,
+            "outcome": "ok" if not v else "violation:" + "+".join(sorted({x["check"] for x in v}))}
+
+
 def _run_locate_mixed(case):
     types, mp = case["types"], case["map"]
     d = Z.dim_of(types[0])
@@ -190,8 +249,16 @@ def cases(tier, seed):
             c.update(d)
             c["hist"] = h
             out.append(c)
+        # the same histories of length 2 observed only at the END (no observation in between that would warm the caches in a
+        # particular order)
+        for h in _histories(2):
+            c = {"kind": "motion", "regime": "end"}
+            c.update(d)
+            c["hist"] = h
+            out.append(c)
     out += _locate_meshes(tier)
     out += _locate_mixed_cases(tier)
+    out += _locate_grid_cases(tier)
     return out
 
 
@@ -205,7 +272,7 @@ def describe(tier, seed):
                 "one query point evaluated correctly; distinct = fingerprint of the observed measure/centroid/flux/closure/orientation pattern "
                 "resp. of the evaluated values",
         "exhaustive": True,
-        "bound": f"histories of length <= {depth} over {len(LETTERS)} letters ({len(LETTERS) ** depth} maximal histories per domain, {nd} (domain, type) pairs); "
+        "bound": f"histories of length <= {depth} over {len(LETTERS)} letters ({len(LETTERS) ** depth} maximal histories per domain, observed after every letter, plus every history of length 2 observed only at its end, {nd} (domain, type) pairs); "
                  "gmsh polygons quad/pent/L (h=0.5; extrusions h=0.6, height 0.8, 2 layers), distorted k=2 template (2D), unit box with boundary "
                  "reconstructed by MeshIO.Surface_reconstruction (3D), planar 2D gmsh meshes moved by the 3D alphabet (embedded); point location on "
                  "template meshes of 1-8 cells: affine, general straight-sided (displaced vertex), 3D frustum cells (non-affine, planar faces), "
@@ -268,6 +335,8 @@ def _letter(name, space):
                     g.Get_normals_e_pg(MatrixType.mass, displacementMatrix=U)
 
         return query, np.eye(3), np.zeros(3)
+    if name == "P":
+        return (lambda m: None), np.eye(3), np.zeros(3)  # the query itself is issued (and judged) by _check_locate
     if name == "T":
         d = np.array([0.37, -0.21, 0.0 if planar else 0.45])
         return (lambda m: m.Translate(float(d[0]), float(d[1]), float(d[2]))), np.eye(3), d
@@ -402,6 +471,13 @@ def _check_state(mesh, X0, ex, Q, b, dom, key, step, obs):
         v.append(viol("centroid", f"{det} mesh.center {cen}, exact {cex}", **key))
     nops += 2
     obs += [meas, cen]
+    # the measure once more, integrated with the default (mass) quadrature of the element groups
+    mm = 0.0
+    for g in mesh.Get_list_groupElem(d):
+        mm += float(np.sum(np.asarray(g.Integrate_e(lambda x, y, z: 1.0), dtype=float)))
+        nops += 1
+    if abs(mm - ex["measure"]) > 1e-10 * ex["measure"]:
+        v.append(viol("measure_mass", f"{det} integral of 1 with the mass quadrature {mm!r}, exact measure {ex['measure']!r}", **key))
     if dom == "emb":
         m = Q @ np.array([0.0, 0.0, 1.0])
         signs = set()
@@ -494,9 +570,31 @@ def _check_state(mesh, X0, ex, Q, b, dom, key, step, obs):
     return v, nops
 
 
+def _check_locate(mesh, d, key, det):
+    """letter P: a linear nodal field evaluated at the centroid of every main element must be reproduced."""
+    coord = np.asarray(mesh.coord, dtype=float)
+    f = lambda X: 1.0 + 0.3 * X[:, 0] - 0.2 * X[:, 1] + 0.5 * X[:, 2]
+    pts = []
+    for g in mesh.Get_list_groupElem(d):
+        con = np.asarray(g.connect, dtype=int)[:, : _nvert(g.elemType.name)]
+        pts.append(coord[con].mean(axis=1))
+    pts = np.vstack(pts)
+    try:
+        got = np.asarray(mesh.Evaluate_dofsValues_at_coordinates(pts.copy(), f(coord)), dtype=float).ravel()
+    except Exception as err:
+        return [viol("locate_after_motion", f"{det} Evaluate_dofsValues_at_coordinates raised {type(err).__name__}: {str(err)[:160]}", **key)]
+    want = f(pts)
+    err = np.abs(got - want).max() if got.shape == want.shape else np.inf
+    if err > 1e-6 * max(1.0, np.abs(want).max()):
+        nz = int(np.sum(got == 0.0)) if got.shape == want.shape else -1
+        return [viol("locate_after_motion", f"{det} linear field at the {len(want)} element centroids: max error {err:.3e} ({nz} points returned 0 = not located)", **key)]
+    return []
+
+
 def _run_motion(case):
     dom = case["dom"]
     hist = case["hist"]
+    regime = case.get("regime", "each")
     mesh, ex = _build_domain(case)
     space = "2d" if dom == "2d" else "3d"
     X0 = np.asarray(mesh.coord, dtype=float).copy()
@@ -515,6 +613,16 @@ def _run_motion(case):
             nops += 1
         prefix = ">".join(hist[:i]) if i else "-"
         key = dict(key0, hist=prefix, mirrored=bool(mirrored))
+        if regime == "end":
+            key["regime"] = "end"
+        if i > 0 and step == "P" and dom != "emb":
+            for x in _check_locate(mesh, ex["dim"], key, f"[{case['src']}/{case['poly']}/{case['elemType']} after '{step}' of '{prefix}']"):
+                if (x["check"], prefix) not in seen:
+                    seen.add((x["check"], prefix))
+                    viols.append(x)
+            nops += 1
+        if regime == "end" and i < len(steps) - 1:
+            continue
         vs, n = _check_state(mesh, X0, ex, Q, b, dom, key, step, obs)
         nops += n
         for x in vs:
@@ -522,7 +630,7 @@ def _run_motion(case):
             if kk not in seen:
                 seen.add(kk)
                 viols.append(x)
-    return {"violations": viols, "fingerprint": fp(dom, case["src"], case["elemType"], case["poly"], hist, *obs),
+    return {"violations": viols, "fingerprint": fp(dom, case["src"], case["elemType"], case["poly"], hist, regime, *obs),
             "nontrivial": mesh.Ne > 1 and len(hist) > 0, "transitions": nops,
             "outcome": "ok" if not viols else "violation:" + "+".join(sorted({x["check"] for x in viols}))}
 
